@@ -65,6 +65,14 @@
    VF_CFG_MI( "mustif-act-req-eager", TOP, ACT, action, required, eager, true, true, false );                               \
    VF_CFG_MI( "mustif-act-opt-lazy", TOP, ACT, action, optional, lazy, true, false, true );                                 \
    e.cfgs.push_back( vf::cfg_entry{ "mustif-over-normal-act-req-eager", &vf::runner< TOP, ACT, tao::pegtl::must_if< errs, tao::pegtl::normal, false >::template control, tao::pegtl::apply_mode::action, tao::pegtl::rewind_mode::required, tao::pegtl::tracking_mode::eager, VF_EOL >, true, true, false, false, true, VF_EOL_ID, 0, 1, 1, -1, false, true } )
+#elif VF_CFGSET == 10
+// C08: state_control and coverage wrapped around a must_if control whose failure() raises (errs is emitted with the grammar)
+#define VF_MI_LIGHT tao::pegtl::must_if< errs, vf::light_control, false >::template control
+#define VF_CFGS( e, TOP, ACT )                                                                                              \
+   VF_CFG( "act-req-obs-eager", TOP, ACT, vf::obs_control_unw, action, required, eager, true, true, false, true, true );     \
+   e.cfgs.push_back( vf::cfg_entry{ "statectl-over-mustif-act-req-eager", &vf::runner_statectl< TOP, ACT, tao::pegtl::apply_mode::action, tao::pegtl::rewind_mode::required, tao::pegtl::tracking_mode::eager, VF_EOL, VF_MI_LIGHT >, true, true, false, false, true, VF_EOL_ID, 0, 1, 1, -1, false, true } ); \
+   e.cfgs.push_back( vf::cfg_entry{ "statectl-over-mustif-nothing-opt-lazy", &vf::runner_statectl< TOP, ACT, tao::pegtl::apply_mode::nothing, tao::pegtl::rewind_mode::optional, tao::pegtl::tracking_mode::lazy, VF_EOL, VF_MI_LIGHT >, false, false, true, false, true, VF_EOL_ID, 0, 1, 1, -1, false, true } ); \
+   e.cfgs.push_back( vf::cfg_entry{ "coverage-over-mustif-eager", &vf::runner_coverage< TOP, ACT, tao::pegtl::tracking_mode::eager, VF_EOL, VF_MI_LIGHT >, true, false, false, false, true, VF_EOL_ID, 0, 1, 1, -1, false, true } )
 #elif VF_CFGSET == 4
 // C08: observer through state_control, and the coverage facility
 #define VF_CFGS( e, TOP, ACT )                                                                                                 \
